@@ -98,6 +98,38 @@ def run(R):
             R.viol("C02.scan.key", "scan-key", "the start-up scan does not decrypt a file under the key its own name encodes", sc, sc.lines[0])
         R.inst("C02.scan.key", "K6 flows-to", "file decrypted and indexed under the key decoded from its own file name", len(calls), ok)
 
+    # (2c) a record file is always replaced whole (a shorter overwrite must not leave the old tail behind)
+    from flow import backward_calls
+    n = 0
+    okw = True
+    for b in F.item(NRS + "::put_verified"):
+        prep(b)
+        for blk in b.blocks:
+            t = blk["term"]
+            if t["k"] != "call" or blk["cleanup"]:
+                continue
+            nc = t["ncallee"] or ""
+            if nc in ("std::fs::write", "std::fs::File::create"):
+                n += 1
+            elif nc == "std::fs::OpenOptions::open":
+                n += 1
+                _, calls = backward_calls(b, op_local(t["args"][0]))
+                names = {}
+                for c in calls:
+                    cn = (c["ncallee"] or "").split("::")[-1]
+                    val = c["args"][1][1] if len(c["args"]) > 1 and c["args"][1][0] == "c" else None
+                    names[cn] = val
+                whole = names.get("truncate") == "true" or names.get("create_new") == "true"
+                writes = names.get("write") == "true" or names.get("append") == "true"
+                if writes and not whole:
+                    okw = False
+                    R.viol("C02.whole-file", "no-truncate", "put_verified opens the record file for writing without truncate(true): a shorter overwrite leaves the tail of the old "
+                           "version, which fails authentication after a restart (the completed write is lost) or is served mixed", b, t["l"])
+    if n < 1:
+        okw = False
+        R.viol("C02.whole-file", "writer-missing", "no file-writing call found in put_verified")
+    R.inst("C02.whole-file", "K1 forbidden-callee", "record files are replaced whole (fs::write / File::create / OpenOptions with truncate or create_new)", n, okw)
+
     # (3) index rebuilt from files
     wc = R.body("C02.rebuild", WITHCFG)
     if wc is not None:
